@@ -22,9 +22,9 @@ import (
 // compared with the per-connection pairing model (Req/Pool/Pairing.lean).
 func TestVerif_C09_pair(t *testing.T) {
 	s := verifh.New(t, "C09", "pair",
-		"sequences of 3..14 sequential requests of kinds NB (no body) / B (Content-Length body read to EOF) / CH (chunked) / HD (HEAD) / BX (caller closes the body early) / BK (Connection: close) / NBK (no body + close) / BI (CloseIdleConnections before the body is drained) against a raw HTTP/1.1 origin; observed per request: connection sequence number, GotConn.Reused, order of PutIdleConn(nil|err) / response returned / EOF; plus tag echo; non-trivial = at least one reuse and one non-reuse in the sequence")
+		"sequences of 3..14 sequential requests of kinds NB (no body) / E1, EX (POST with Expect: 100-continue answered by 100 Continue + 200, or by a final 403/404/500 without 100 on a kept-alive connection; the origin checks that the promised body arrives) / B (Content-Length body read to EOF) / CH (chunked) / HD (HEAD) / BX (caller closes the body early) / BK (Connection: close) / NBK (no body + close) / BI (CloseIdleConnections before the body is drained) against a raw HTTP/1.1 origin; observed per request: connection sequence number, GotConn.Reused, order of PutIdleConn(nil|err) / response returned / EOF; plus tag echo; non-trivial = at least one reuse and one non-reuse in the sequence")
 	r := s.Rand()
-	kinds := []string{"NB", "B", "B", "CH", "HD", "BX", "BK", "NBK", "BI"}
+	kinds := []string{"NB", "B", "B", "CH", "HD", "BX", "BK", "NBK", "BI", "E1", "EX"}
 	n := verifh.N(150, 2500)
 	nBad := 0
 	wedged := false
@@ -83,6 +83,10 @@ func TestVerif_C09_pair(t *testing.T) {
 				pl.close = true
 			case "HD":
 				pl.size = 500
+			case "E1":
+				pl.size, pl.expect = verifh.Pick(r, []int{1, 300}), 1
+			case "EX":
+				pl.size, pl.expect, pl.status = verifh.Pick(r, []int{1, 300}), 2, verifh.Pick(r, []int{403, 404, 500})
 			}
 			if kind == "BX" {
 				pl.size = 9000
@@ -98,11 +102,15 @@ func TestVerif_C09_pair(t *testing.T) {
 				resp *Response
 				err  error
 			}
+			reqSize := verifh.Pick(r, []int{1, 200, 2000})
 			resCh := make(chan result, 1)
 			go func() {
 				var rs result
 				if kind == "HD" {
 					rs.resp, rs.err = rq.Head("http://" + o.addr() + "/p")
+				} else if kind == "E1" || kind == "EX" {
+					rs.resp, rs.err = rq.SetHeader("Expect", "100-continue").
+						SetBodyBytes(c09Pattern(tag, reqSize, "q")).Post("http://" + o.addr() + "/p")
 				} else {
 					rs.resp, rs.err = rq.Get("http://" + o.addr() + "/p")
 				}
@@ -165,6 +173,10 @@ func TestVerif_C09_pair(t *testing.T) {
 		}
 		tr.CloseIdleConnections()
 		o.stop()
+		if f := o.foreignSeen(); len(f) > 0 {
+			ok = false
+			impl = append(impl, "foreign-bytes:"+strings.Join(f, " / "))
+		}
 		answer := strings.Join(impl, ";")
 		nontrivial := strings.Contains(answer, ":1:") && strings.Count(answer, ":0:") >= 2
 		s.Case("c09pair "+strings.Join(seq, ","), answer, ok, "", nontrivial, strings.Join(seq, " ")+" -> "+answer)
